@@ -283,3 +283,125 @@ def check_loop_conservation(cfg, loop_stmt, is_sink):
                 problems.append(("early-exit", p or [head, n]))
                 break
     return problems
+
+
+def rebinds_inside_loops(fnode, name):
+    """Plain (non-augmented) bindings of local ``name`` that sit inside a loop of the function:
+    [(stmt, loop)].  An accumulator returned after the loop must have none."""
+    out = []
+    for s, v in assignments_to(fnode, name):
+        if isinstance(v, tuple) and v[0] == "aug":
+            continue
+        p = getattr(s, "parent", None)
+        child = s
+        while p is not None and p is not fnode:
+            if isinstance(p, (ast.For, ast.While, ast.AsyncFor)) and child in p.body:
+                out.append((s, p))
+                break
+            child, p = p, getattr(p, "parent", None)
+    return out
+
+
+def stale_path_into_use(cfg, loop, name, use_node):
+    """Witness path from the head of ``loop`` (entering an iteration) to ``use_node`` on which local ``name``
+    is not (re)bound inside the loop -- i.e. the use can see the value left by the previous iteration.
+    Returns (path or None, number of in-loop plain definitions)."""
+    head = cfg.node_of(loop)
+    defs = set()
+    for s_, v_ in assignments_to(loop, name):
+        if not isinstance(s_, ast.stmt) or id(s_) not in cfg.by_stmt:
+            continue
+        if isinstance(v_, tuple) and v_[0] in ("iter", "aug"):
+            continue
+        defs.add(cfg.node_of(s_))
+    for b in cfg.succ(head, "loop"):
+        p = cfg.find_path(b, use_node, avoid_nodes=defs)
+        if p is not None:
+            return [head] + p, len(defs)
+    return None, len(defs)
+
+
+def copy_depth(expr, src_text):
+    """How many container levels of ``src_text`` the expression copies: deepcopy -> 99; x[:], list(x), x.copy(),
+    copy(x) -> 1; [<copy of e> for e in x] -> 1 + depth of the element copy; the bare name (alias) -> 0.
+    None if the expression is not derived from ``src_text`` in one of these forms."""
+    from .norm import u
+
+    if u(expr) == src_text:
+        return 0
+    if isinstance(expr, ast.Call):
+        f = u(expr.func)
+        if f in ("deepcopy", "copy.deepcopy") and expr.args and u(expr.args[0]) == src_text:
+            return 99
+        if f in ("list", "copy", "copy.copy", "tuple") and len(expr.args) == 1 and u(expr.args[0]) == src_text:
+            return 1
+        if isinstance(expr.func, ast.Attribute) and expr.func.attr == "copy" and not expr.args and u(expr.func.value) == src_text:
+            return 1
+    if isinstance(expr, ast.Subscript) and isinstance(expr.slice, ast.Slice) and expr.slice.lower is None and expr.slice.upper is None and expr.slice.step is None and u(expr.value) == src_text:
+        return 1
+    if isinstance(expr, ast.ListComp) and len(expr.generators) == 1 and not expr.generators[0].ifs and u(expr.generators[0].iter) == src_text and isinstance(expr.generators[0].target, ast.Name):
+        d = copy_depth(expr.elt, expr.generators[0].target.id)
+        return None if d is None else 1 + d
+    return None
+
+
+def subscript_depth(target):
+    d = 0
+    while isinstance(target, ast.Subscript):
+        d += 1
+        target = target.value
+    return d
+
+
+def result_relevant_names(fnode):
+    """Locals whose value can flow into what the function returns (flow-insensitive closure over
+    assignments, augmented assignments, mutator calls and loop targets)."""
+    from .norm import names_in
+
+    rel = set()
+    for n in walk_function(fnode):
+        if isinstance(n, ast.Return) and n.value is not None:
+            rel |= names_in(n.value)
+    changed = True
+    while changed:
+        changed = False
+        for n in walk_function(fnode):
+            tgt_names, src = set(), None
+            if isinstance(n, ast.Assign):
+                for t in n.targets:
+                    tgt_names |= {root_name(x) for x in _targets(t)} | {x.id for x in ast.walk(t) if isinstance(x, ast.Name) and isinstance(x.ctx, ast.Store)}
+                src = n
+            elif isinstance(n, (ast.AugAssign, ast.AnnAssign)) and getattr(n, "value", None) is not None:
+                tgt_names = {root_name(n.target)}
+                src = n
+            elif isinstance(n, ast.For):
+                tgt_names = {x.id for x in ast.walk(n.target) if isinstance(x, ast.Name)}
+                src = n.iter
+            elif isinstance(n, ast.Expr) and isinstance(n.value, ast.Call) and isinstance(n.value.func, ast.Attribute) and n.value.func.attr in MUTATORS:
+                tgt_names = {root_name(n.value.func.value)}
+                src = n
+            if src is None or not (tgt_names & rel):
+                continue
+            new = names_in(src) - rel
+            if new:
+                rel |= new
+                changed = True
+    return rel
+
+
+def affects_result(fnode, stmt, rel=None):
+    """Does this statement define / mutate a name that can flow into the function's result?"""
+    rel = result_relevant_names(fnode) if rel is None else rel
+    if isinstance(stmt, ast.Assign):
+        for t in stmt.targets:
+            for x in ast.walk(t):
+                if isinstance(x, ast.Name) and x.id in rel:
+                    return True
+        return False
+    if isinstance(stmt, (ast.AugAssign, ast.AnnAssign)):
+        return root_name(stmt.target) in rel
+    if isinstance(stmt, ast.Expr) and isinstance(stmt.value, ast.Call) and isinstance(stmt.value.func, ast.Attribute) and stmt.value.func.attr in MUTATORS:
+        return root_name(stmt.value.func.value) in rel
+    if isinstance(stmt, ast.Return):
+        return True
+    return False
